@@ -23,6 +23,7 @@ import (
 	"time"
 
 	"github.com/samsarahq/thunder/concurrencylimiter"
+	"github.com/samsarahq/thunder/verifhook"
 )
 
 // DefaultWaitInterval is the default WaitInterval for Func.
@@ -188,9 +189,11 @@ func (f *Func) Invoke(ctx context.Context, arg interface{}) (interface{}, error)
 	// find the result.
 	index := len(bg.args)
 	bg.args = append(bg.args, arg)
+	verifhook.At("batch.join", bg, arg, index, existed, len(bg.args))
 
 	// Maybe signal to run if we hit max batch size.
 	if f.MaxSize > 0 && len(bg.args) == f.MaxSize {
+		verifhook.At("batch.maxsize", bg)
 		close(bg.maxSizeCh)
 		delete(bctx.pendingBatchGroups, fs)
 	}
@@ -202,9 +205,13 @@ func (f *Func) Invoke(ctx context.Context, arg interface{}) (interface{}, error)
 		// Wait for a trigger to run the batchGroup.
 		select {
 		case <-bg.intervalTimer.C: // Resolve if the interval timer expires.
+			verifhook.At("batch.wake", bg, "interval")
 		case <-ctx.Done(): // Resolve if the context is canceled.
+			verifhook.At("batch.wake", bg, "ctxdone")
 		case <-timer.C: // Resolve after a timeout to bound latency.
+			verifhook.At("batch.wake", bg, "maxduration")
 		case <-bg.maxSizeCh: // Resolve if we hit max batch size.
+			verifhook.At("batch.wake", bg, "maxsize")
 		}
 
 		// Before we try and resolve, make sure noone will add to the group by
@@ -214,16 +221,21 @@ func (f *Func) Invoke(ctx context.Context, arg interface{}) (interface{}, error)
 		// hit the maximum batch size; only delete ourselves.
 		if bctx.pendingBatchGroups[fs] == bg {
 			delete(bctx.pendingBatchGroups, fs)
+			verifhook.At("batch.unpublish", bg)
 		}
+		verifhook.At("batch.unpublished", bg)
 		bctx.mu.Unlock()
 
 		// Check for the context being canceled.
 		if ctx.Err() == nil {
+			verifhook.At("batch.run", bg, len(bg.args))
 			bg.result, bg.err = safeInvoke(ctx, f.Many, bg.args)
 		} else {
 			bg.err = ctx.Err()
+			verifhook.At("batch.cancelled", bg)
 		}
 		// Make the result available.
+		verifhook.At("batch.done", bg)
 		close(bg.doneCh)
 
 	} else {
